@@ -12,7 +12,7 @@ PROPS = {"C11": dict(
         "Zrnt.Proofs.C11.Old.queries_after_prune_false",
         "Zrnt.Proofs.C11.getSlot_inSubtree_refine_partial",
     ],
-    modes=[dict(name="fc11", stateful=True, max_shrinks=3,
+    modes=[dict(name="fc11", stateful=True, max_shrinks=2,
                 nontrivial=_nontrivial(("chain", "closest", "canonat", "getslot", "insub", "search", "findhead", "nodes")))],
     level="proof",
     trusted_base=FC_TB,
